@@ -196,7 +196,9 @@ def scenario(sym, tier):
 
 
 def _cubes(tier):
-    return [{"kind0": a, "kind1": b} for a in range(7) for b in range(7)]
+    if tier == "quick":
+        return [{"kind0": a, "kind1": b} for a in range(7) for b in range(7)]
+    return [{"kind0": a, "kind1": b, "kind2": c} for a in range(7) for b in range(7) for c in range(7)]
 
 
 MANIFEST = {
